@@ -8,6 +8,9 @@ From PlzV Require Import Base.Harness Model.C39 Proof.C39.
                     in read order; -o above all of them), the documented default if no source sets it;
      repeated:      the values accumulated across the files in read order, a blank clearing everything
                     before it, -o replacing the whole list, the documented default if no source sets it;
+     a default is a literal of DefaultConfiguration(), a setDefault value or a COMPUTED default (build.path: the $PATH
+     of the caller when the files list PATH in build.passenv / build.passunsafeenv, else DefaultPath) - of whatever
+     kind, it applies only to an option that no source sets (Proof.C39.default_of);
    each profile file is read right after the file it belongs to; and the default files come in the
    documented order /etc/please/plzconfig, user config, .plzconfig, .plzconfig_<arch>, .plzconfig.local. *)
 Definition C39_statement : Prop :=
@@ -24,12 +27,13 @@ Definition C39_statement : Prop :=
           [e_root e ++ s "/.plzconfig"; e_root e ++ s "/.plzconfig_" ++ e_arch e; e_root e ++ s "/.plzconfig.local"]).
 
 (* The unchanged code does not satisfy it: a repeated option whose last word is a blank reset gets its
-   built-in default back (witness_blank); two more classes are exhibited by witness_preset / witness_derived. *)
+   built-in default back (witness_blank); three more classes are exhibited by witness_preset / witness_derived /
+   witness_alias (cpp.coverage = false appends "cc" to test.disablecoverage). *)
 Theorem C39_refuted : ~ C39_statement.
 Proof. exact (fun H => full_value_clause_false (proj1 H)). Qed.
 Print Assumptions C39_refuted.
 
-(* What does hold, for all inputs: the value clause outside the three executable defect classes (and the two
+(* What does hold, for all inputs: the value clause outside the four executable defect classes (and the two
    list classes are exact), each clause of the property in source-level form, and the two order clauses. *)
 Definition C39_partial_statement : Prop :=
   (* 1. every option outside the known defect classes has the documented value *)
@@ -42,14 +46,14 @@ Definition C39_partial_statement : Prop :=
   /\ (forall sch fs filenames profiles ovs c,
         effective sch fs filenames profiles ovs = Some c ->
         let srcs := sources fs (read_order filenames profiles) in
-        forall o d, defect_class sch srcs ovs o = Some d -> d <> DerivedOverwrite ->
+        forall o d, defect_class sch srcs ovs o = Some d -> d <> DerivedOverwrite -> d <> AliasAppended ->
           c o <> spec_value sch o srcs ovs)
   (* 3. single-valued: the highest-priority source that sets it wins, its last assignment counts *)
   /\ (forall sch fs filenames profiles ovs c k n,
         effective sch fs filenames profiles ovs = Some c ->
         let o := Single k n in
         let srcs := sources fs (read_order filenames profiles) in
-        last_override o ovs = None -> derive_hits sch srcs o = false ->
+        last_override o ovs = None -> post_hits sch srcs o = false ->
         forall lower f higher a,
           srcs = lower ++ f :: higher -> Forall (fun g => mentions o g = false) higher ->
           last_on o f = Some a -> c o = [value_of a])
@@ -58,7 +62,7 @@ Definition C39_partial_statement : Prop :=
         effective sch fs filenames profiles ovs = Some c ->
         let o := Multi n in
         let srcs := sources fs (read_order filenames profiles) in
-        last_override o ovs = None -> derive_hits sch srcs o = false ->
+        last_override o ovs = None -> post_hits sch srcs o = false ->
         after_last_blank o (flat srcs) = None -> mentions o (flat srcs) = true ->
         c o = init_cfg sch o ++ concat (map (vals o) srcs))
   (* 5. a blank clears everything set before it *)
@@ -66,30 +70,32 @@ Definition C39_partial_statement : Prop :=
         effective sch fs filenames profiles ovs = Some c ->
         let o := Multi n in
         let srcs := sources fs (read_order filenames profiles) in
-        last_override o ovs = None -> derive_hits sch srcs o = false ->
+        last_override o ovs = None -> post_hits sch srcs o = false ->
         forall before after,
           flat srcs = before ++ Blank o :: after -> after_last_blank o after = None ->
           vals o after <> [] -> c o = vals o after)
-  (* 6. ... and when the blank is the last word, the setDefault value comes back (what the code does) *)
-  /\ (forall sch fs filenames profiles ovs c n d,
+  (* 6. ... and when the blank is the last word, the setDefault value / computed default comes back (what the code does) *)
+  /\ (forall sch fs filenames profiles ovs c n,
         effective sch fs filenames profiles ovs = Some c ->
         let o := Multi n in
         let srcs := sources fs (read_order filenames profiles) in
-        last_override o ovs = None -> derive_hits sch srcs o = false ->
+        last_override o ovs = None -> post_hits sch srcs o = false ->
         forall before after,
           flat srcs = before ++ Blank o :: after -> mentions o after = false ->
-          assoc o (late sch) = Some d -> c o = d)
+          c o = fallback_of sch srcs o)
   (* 7. -o sets the scalar / replaces the whole list, whatever the files say *)
   /\ (forall sch fs filenames profiles ovs c o v,
         effective sch fs filenames profiles ovs = Some c ->
         last_override o ovs = Some v ->
         c o = if is_multi o then split_on 44 v else [v])
-  (* 8. an option no source sets has its documented default *)
+  (* 8. an option no source sets has its default: the documented literal / setDefault value, or the computed default
+        evaluated on the documented layering of the trigger options *)
   /\ (forall sch fs filenames profiles ovs c o,
+        wf_schema sch ->
         effective sch fs filenames profiles ovs = Some c ->
         let srcs := sources fs (read_order filenames profiles) in
-        last_override o ovs = None -> derive_hits sch srcs o = false ->
-        mentions o (flat srcs) = false -> c o = documented_default sch o)
+        last_override o ovs = None -> post_hits sch srcs o = false ->
+        mentions o (flat srcs) = false -> c o = default_of sch srcs o)
   (* 9. profile files right after their file; missing files ignored *)
   /\ (forall before f after profiles,
         read_order (before ++ f :: after) profiles =
@@ -101,18 +107,60 @@ Definition C39_partial_statement : Prop :=
           [s "/etc/please/plzconfig"] ++ xdg_dirs ++ [e_home e ++ s "/.config/please/plzconfig"] ++ xdg_home ++
           [e_root e ++ s "/.plzconfig"; e_root e ++ s "/.plzconfig_" ++ e_arch e; e_root e ++ s "/.plzconfig.local"])
   (* 11. the defaults used in the correspondence are the ones written in config.go (regenerated) *)
-  /\ schema_matches_gen real_schema sampled = true /\ wf_schema real_schema.
+  /\ (forall path, schema_matches_gen (real_schema_at path) sampled = true /\ wf_schema (real_schema_at path)
+                   /\ getenv (real_schema_at path) (s "PATH") = path)
+  (* 12. an option the files leave non-empty never gets a default of any kind (setDefault value or computed default),
+         whatever the trigger options and the environment of the caller are *)
+  /\ (forall sch fs filenames profiles ovs c n,
+        effective sch fs filenames profiles ovs = Some c ->
+        let o := Multi n in
+        let srcs := sources fs (read_order filenames profiles) in
+        last_override o ovs = None -> post_hits sch srcs o = false ->
+        accumulated o srcs <> [] ->
+        c o = (match after_last_blank o (flat srcs) with Some _ => [] | None => init_cfg sch o end) ++ accumulated o srcs)
+  (* 13. membership in an accumulated list, over all assignment streams: v is in it iff some assignment of v is not
+         followed by a blank reset *)
+  /\ (forall n v l,
+        mem v (accumulated_l (Multi n) l) = true <->
+        exists before after, l = before ++ Assign (Multi n) v :: after /\ no_blank_on (Multi n) after = true)
+  (* 14. the computed default in source-level form: an unset option with a computed default gets the split environment
+         variable iff some source lists the trigger element in a trigger option with no later blank reset, else the fallback *)
+  /\ (forall sch fs filenames profiles ovs c o cd,
+        wf_schema sch ->
+        effective sch fs filenames profiles ovs = Some c ->
+        let srcs := sources fs (read_order filenames profiles) in
+        last_override o ovs = None -> post_hits sch srcs o = false ->
+        assoc o (computed sch) = Some cd ->
+        mentions o (flat srcs) = false ->
+        ((exists t before after, In t (cd_triggers cd) /\
+            flat srcs = before ++ Assign (fst t) (snd t) :: after /\ no_blank_on (fst t) after = true)
+         /\ c o = split_on (cd_sep cd) (getenv sch (cd_var cd)))
+        \/
+        ((forall t before after, In t (cd_triggers cd) ->
+            flat srcs = before ++ Assign (fst t) (snd t) :: after -> no_blank_on (fst t) after = false)
+         /\ c o = cd_fallback cd))
+  (* 15. the environment of the caller reaches only options with a computed default that the files leave empty *)
+  /\ (forall s1 s2 fs filenames profiles ovs c1 c2 o,
+        same_tables s1 s2 ->
+        effective s1 fs filenames profiles ovs = Some c1 ->
+        effective s2 fs filenames profiles ovs = Some c2 ->
+        let srcs := sources fs (read_order filenames profiles) in
+        post_hits s1 srcs o = false -> post_hits s2 srcs o = false ->
+        assoc o (computed s1) = None \/ rawcfg s1 srcs o <> [] ->
+        c1 o = c2 o).
 
 Theorem C39_partial : C39_partial_statement.
 Proof.
   exact (conj values_partial (conj list_defects_real (conj scalar_highest_priority (conj repeated_accumulate
         (conj blank_clears (conj blank_last_restores_default (conj override_replaces (conj default_when_unset
         (conj profile_adjacent (conj missing_file_ignored (conj default_order_documented
-        (conj real_schema_matches_source real_schema_wf)))))))))))).
+        (conj (fun p => conj (real_schema_matches_source p) (conj (real_schema_at_wf p) (real_getenv_path p)))
+        (conj explicit_beats_default (conj mem_accumulated_iff (conj computed_default_source_level
+              environment_only_reaches_unset_computed))))))))))))))).
 Qed.
 Print Assumptions C39_partial.
 
-(* Non-vacuity of C39_refuted: the three witnesses run through the model of the unchanged code. *)
+(* Non-vacuity of C39_refuted: the witnesses run through the model of the unchanged code. *)
 Example C39_refuted_witnesses :
   (value_at (run_default w_blank) o_bfn = Some [s "BUILD"; s "BUILD.plz"]
      /\ spec_value real_schema o_bfn (srcs_default w_blank) [] = [])
@@ -120,12 +168,27 @@ Example C39_refuted_witnesses :
          = Some [s "https://repo1.maven.org/maven2"; s "https://jcenter.bintray.com/"; s "https://a.example/x"]
        /\ spec_value real_schema o_maven (srcs_default w_preset) [] = [s "https://a.example/x"])
   /\ (value_at (run_default w_derived) o_gotool = Some [s "/usr/lib/go/bin/go"]
-       /\ spec_value real_schema o_gotool (srcs_default w_derived) [] = [s "/usr/bin/go"]).
+       /\ spec_value real_schema o_gotool (srcs_default w_derived) [] = [s "/usr/bin/go"])
+  /\ (value_at (run_default w_alias) o_discov = Some [s "slow"; s "cc"]
+       /\ spec_value real_schema o_discov (srcs_default w_alias) [] = [s "slow"]).
 Proof.
   exact (conj (conj (proj1 witness_blank) (proj1 (proj2 witness_blank)))
         (conj (conj (proj1 witness_preset) (proj1 (proj2 witness_preset)))
-              (conj (proj1 witness_derived) (proj1 (proj2 witness_derived))))).
+        (conj (conj (proj1 witness_derived) (proj1 (proj2 witness_derived)))
+              (conj (proj1 witness_alias) (proj1 (proj2 witness_alias)))))).
 Qed.
+
+(* Non-vacuity of the computed-default clauses (8, 12, 14) under $PATH = /caller/bin:/usr/bin:
+   build.path set explicitly while PATH is passed through keeps the explicit value; unset with PATH in passunsafeenv it is
+   the split $PATH; with PATH cleared again by a later blank reset of passenv it is the documented DefaultPath. *)
+Example C39_computed_default_nonvacuous :
+  value_at (run_default w_path_set) o_path = Some [s "/opt/tools/bin"]
+  /\ defect_class real_schema (srcs_default w_path_set) [] o_path = None
+  /\ value_at (run_default w_path_unset) o_path = Some [s "/caller/bin"; s "/usr/bin"]
+  /\ defect_class real_schema (srcs_default w_path_unset) [] o_path = None
+  /\ value_at (run_default w_path_cleared) o_path = Some [s "/usr/local/bin"; s "/usr/bin"; s "/bin"]
+  /\ defect_class real_schema (srcs_default w_path_cleared) [] o_path = None.
+Proof. exact computed_examples. Qed.
 
 (* Non-vacuity of C39_partial: five existing files incl. a profile file, missing files, a blank reset in the
    middle, an override; the hypotheses of clause 1 hold and the values are the expected non-trivial ones. *)
